@@ -126,3 +126,38 @@ def vcs(B):
         inside2 = land(app('<=', sub(centre(a, cell[a]), app('/', res, '2.0')), qs), app('<=', qs, add(centre(a, cell[a]), app('/', res, '2.0'))))
         B.vc('next.crossing_point_lies_in_next_cell.axis%d' % a, inside2, wf + I, functions=fn, timeout=120)
     B.vc('next.crossing_parameter_not_before_entry', app('>=', tstar, t_in), wf + I, functions=fn)
+
+    # ---- C14: the chain ends in the end cell and never leaves the grid --------------------------------------------------------
+    # J(c): along every axis the current cell lies between the origin cell and the end cell (in the direction of travel).
+    # Base: setEndPoint establishes J at the origin cell.  Step: from any state with I and J whose cell is not yet the end cell, next()
+    # keeps J and brings the cell exactly one step (L1) closer to the end cell - it never picks an axis that is already at its end index,
+    # because (by I1 and the floor characterisation of the end index) the exit parameter of an exhausted axis lies beyond the end point and
+    # that of an unexhausted axis does not.  Hence (induction on the L1 distance, applied by hand; cast() makes exactly L1 calls of next(),
+    # proved in back end A): the chain ends in the end cell and all its cells lie in the box spanned by the origin and end cells.
+    ei0 = rc['rayEndIndexes_']
+    efloor0 = []
+    for a in range(D):
+        # contract of computeCellIndexes for a point of the grid (C13): go + i res <= p < go + (i + 1) res
+        for idx, pt in ((oi[a], o[a]), (ei0[a], e[a])):
+            efloor0 += [app('<=', add(go[a], mul(app('to_real', idx), res)), pt), app('<', pt, add(go[a], mul(add(app('to_real', idx), '1.0'), res)))]
+    for a in range(D):
+        step = rc['rayStep_'][a]
+        B.vc('setEndPoint.axis%d.end_cell_lies_in_the_direction_of_travel' % a,
+             land(app('>=', mul(step, sub(ei0[a], oi[a])), '0'), implies(app('=', step, '0'), app('=', ei0[a], oi[a]))), base + gfacts + efloor0, functions=fse, subst=GEN, timeout=120)
+    ei = st['rayEndIndexes_']
+    R = B.real('range_any')
+    endfacts = [app('>', R, '0.0')]
+    for a in range(D):
+        endfacts.append(app('=', e[a], add(o[a], mul(R, dirg[a]))))                                   # the end point is the ray point at parameter R > 0
+        endfacts += [app('<=', add(go[a], mul(app('to_real', ei[a]), res)), e[a]), app('<', e[a], add(go[a], mul(add(app('to_real', ei[a]), '1.0'), res)))]
+        # "not on a cell border": only the lower border matters, and only for an axis travelled in the negative direction
+        endfacts.append(implies(app('=', stepg[a], '(- 1)'), app('<', add(go[a], mul(app('to_real', ei[a]), res)), e[a])))
+    J = [land(app('>=', mul(stepg[a], sub(ei[a], c[a])), '0'), implies(app('=', stepg[a], '0'), app('=', ei[a], c[a]))) for a in range(D)]
+    iabs = lambda t: ite(app('>=', t, '0'), t, neg(t))
+    dist0 = add(iabs(sub(ei[0], c[0])), iabs(sub(ei[1], c[1])))
+    dist1 = add(iabs(sub(ei[0], cell[0])), iabs(sub(ei[1], cell[1])))
+    notyet = [app('>', dist0, '0')]
+    for a in range(D):
+        B.vc('next.stays_between_origin_and_end_cells.axis%d' % a, land(app('>=', mul(stepg[a], sub(ei[a], cell[a])), '0'), implies(app('=', stepg[a], '0'), app('=', ei[a], cell[a]))),
+             wf + I + J + notyet + endfacts, functions=fn, timeout=180)
+    B.vc('next.l1_distance_to_the_end_cell_decreases_by_exactly_one', app('=', dist1, sub(dist0, '1')), wf + I + J + notyet + endfacts, functions=fn, timeout=180)
